@@ -37,6 +37,8 @@ CHECKS = {
  "C19": dict(text="For the first sentence of the property (equality, hash and ordering depend only on the set of pairs) the check amounts to an inductive proof of the representation invariant 'keys strictly increasing': private field, closed writer set {new, insert, remove, values_mut, into_iter}, insert/remove write at the index binary search returned for the very key, values_mut projects values only, search is binary_search_by_key on the key, and Eq/Hash/Ord are the derived impls. For the operations (get, keys/values, inverse, identity, compose / compose_partial / compose_fresh, bijection_from_fresh_to, try_union, is_perm, is_bijection) an operand-role table decides that inserted keys and values come from the documented sources in the documented order. Agreement with a reference map on all sequences and the algebraic laws are not mechanically derived; the claimed level is therefore 'other', not 'proof'.",
              technique="custom MIR analysis: who-may-write closure of a private field, writer-idiom verification, derived-impl census, operand-role table", ref="§4 C19",
              note="Trusted base: rustc privacy checking and MIR, sefacts/salib, the std contract of slice::binary_search_by_key, smallvec insert/remove/index_mut behaving like Vec's."),
+ "C20": dict(text="Determinism census over the type-checked program: every instantiation of std HashMap/HashSet in any MIR local, ADT field or signature uses the fixed-seed FxBuildHasher; calls into clocks, thread identity, environment, RNGs and pointer-to-integer casts are confined to a frozen exception table (run/ timing; the pointer-keyed ShowMap whose iteration is dominated by a sort on the stored insertion index; pointer sets compared for disjointness only); the only static is the thread-local slot table, and no atomics, locks or lazy globals occur in any field or local. Equality of whole transcripts is not decided.",
+             technique="census over resolved types and callees (rustc_private facts), frozen exception table, dominance rule for sorted iteration", ref="§4 C20"),
  "C02": dict(text="Static necessary conditions of congruence-closure completeness: inter-procedural work-list summaries prove that no public &mut entry point returns with a non-empty work-list in any feature configuration; the drain loop exits only on empty; every class-level change re-queues usages with Full; PendingType::merge truth table; remove/re-insert pairing and self-symmetry derivation in the work-list handler; orbit closure feeds the stored slot set (known finding F1). Does not decide that the fixpoint equals the congruence closure.",
              technique="custom MIR analysis: inter-procedural must-pass-through summaries (greatest fixpoint), path rules, exhaustive constant evaluation of a 2x2 match, value dependence", ref="§4 C02"),
  "C01": dict(text="Static necessary conditions of equality soundness, decided on the MIR of every feature configuration: eq() answers true only via the class-group membership test behind the id and slot-set guards on canonicalised operands; the slot-set writer's cap is an intersection; add-permutation / merge branch discipline; union-find edge orientation. Does not decide soundness of computed slot maps as values.",
